@@ -319,7 +319,7 @@ def run(ck):
     from onsager import OnsagerCalc, crystal
     col = Collector(ck)
     stats = dict(states=0, transitions=0, mappings=0, mappings_none=0, states_folded=0, transitions_folded=0, warning_cells=0,
-                 cells_too_small=0, skipped_irrational=0, dictionaries=0, omega0_cross_wyckoff=0, multi_wyckoff_host_dictionaries=0, index_lookups=0, near_coincident_dictionaries=0)
+                 cells_too_small=0, skipped_irrational=0, dictionaries=0, omega0_cross_wyckoff=0, multi_wyckoff_host_dictionaries=0, index_lookups=0, near_coincident_dictionaries=0, repeated_call_dictionaries=0)
     skipped = {"nonpercolating": 0, "construct-failed": 0, "too-many-states": 0}
     jobs = []
     ncalc = ck.n(3, 18)
@@ -414,6 +414,28 @@ def run(ck):
             jobs.append(check_superdict(ck, col, "vacancy" if vac else "interstitial", label, d, crys, chem, super_n, sd, list(warns), spec, stats))
     if stats["near_coincident_dictionaries"] == 0:
         col.violation("c29-generator-precondition", "no supercell dictionary for the crystals with nearly coincident sites could be built", dict(crystals=[x[0] for x in splits]))
+    # ONE calculator, several makesupercells calls with too-small supercells of equal determinant (different matrices, and the same
+    # matrix twice): every call must warn on its own (the per-call comparison with the exact half-cell criterion is in check_superdict)
+    for label, crys, chem in ([("sc (repeated calls)",) + gen.named("sc")] + ([] if ck.quick else [("bcc (repeated calls)",) + gen.named("bcc")])):
+        try:
+            cut, sl, jn = first_percolating(crys, chem)
+            d = OnsagerCalc.VacancyMediated(crys, chem, sl, jn, 1)
+        except Exception as e:
+            col.violation("c29-exception", "%s: calculator could not be built: %r" % (label, e), dict(label=label, exception=repr(e))); continue
+        for ncall, super_n in enumerate([np.diag([2, 1, 1]), np.diag([1, 1, 2]), np.diag([1, 1, 2]), np.diag([1, 2, 1])]):
+            spec = dict(label=label, lattice=crys.lattice.tolist(), basis=[[u.tolist() for u in b] for b in crys.basis], chem=chem,
+                        cutoff=cut, supercell=super_n.tolist(), call_number_on_this_calculator=ncall + 1,
+                        earlier_calls=[m_.tolist() for m_ in [np.diag([2, 1, 1]), np.diag([1, 1, 2]), np.diag([1, 1, 2])][:ncall]])
+            with warnings.catch_warnings(record=True) as warns:
+                warnings.simplefilter("always")
+                try:
+                    sd = d.makesupercells(super_n)
+                except Exception as e:
+                    col.violation("c29-exception", "%s %s: makesupercells raised %r" % (label, super_n.tolist(), e), dict(cfg=spec, exception=repr(e)))
+                    continue
+            stats["dictionaries"] += 1
+            stats["repeated_call_dictionaries"] += 1
+            jobs.append(check_superdict(ck, col, "vacancy", "%s call %d" % (label, ncall + 1), d, crys, chem, super_n, sd, list(warns), spec, stats))
     # vacancy-mediated calculators whose diffusing species occupies several Wyckoff positions, with a network that contains
     # jumps between inequivalent positions (omega0 endpoints then belong to different lone-vacancy states)
     def A(*x): return np.array(x, dtype=float)
@@ -534,7 +556,7 @@ def replay(ck, path):
     super_n = np.array(c["supercell"], dtype=int)
     col = Collector(ck)
     stats = dict(states=0, transitions=0, mappings=0, mappings_none=0, states_folded=0, transitions_folded=0, warning_cells=0,
-                 cells_too_small=0, skipped_irrational=0, dictionaries=0, omega0_cross_wyckoff=0, multi_wyckoff_host_dictionaries=0, index_lookups=0, near_coincident_dictionaries=0)
+                 cells_too_small=0, skipped_irrational=0, dictionaries=0, omega0_cross_wyckoff=0, multi_wyckoff_host_dictionaries=0, index_lookups=0, near_coincident_dictionaries=0, repeated_call_dictionaries=0)
     with warnings.catch_warnings(record=True) as warns:
         warnings.simplefilter("always")
         try:
